@@ -26,6 +26,10 @@ CLAIMED = {
          "Unbounded theorems (Props/C25.v, 6): keys are injective in dialect, SQL and data map (given that the frame hash separates frames -- a stated hypothesis) and independent of insertion order; for every history in which the caller mutates only frames it holds, the cache with private copies yields operation-by-operation the outputs of a plain map from keys to frame VALUES (so mutating a returned copy or the stored frame never changes the cache); lookups succeed exactly after a store under an equal key. Every run replays random new/mutate/store/get/read histories on the real ResultCache and on the model inside Coq, runs a dict oracle, and probes the hash hypothesis on all pairs of 18 frames differing in one value, column name, shape, row order or dtype.",
          "Trusted: Coq kernel, vm_compute, fidelity of Model/Cache.v (sampled), hash_data_frame separates frames (hypothesis; one listed finding: bool vs int), list.sort canonical, pandas copy()/equals().",
          "DESIGN.md section 5 C25"),
+ "C22": ("Coq proofs relating an executable hand model of data_schema.py to a declarative reading of 'schema violation' over an abstract type universe (iff theorems, switch transparency, example-value normalisation, one refuted statement); model tied to the code by differential correspondence evaluated in Coq",
+         "Unbounded theorems (Props/C22.v, 10): over every universe of types with an isinstance relation, the checker rejects a value iff it violates its specification (missing column, non-frame, non-null cell or scalar of none of the declared types), check_args raises TypeError iff a declared argument is missing or violating and never raises anything else, the wrapper returns the function's own result unchanged iff nothing violates, with the switch off it never raises, and example values (alone or inside sets) declare their own types. Every run compares the model with the real decorator on thousands of random specification x call pairs inside Coq and against an independent oracle written from the property text; two defects found this way were fixed in /repo, one is listed.",
+         "Trusted: Coq kernel, vm_compute, fidelity of Model/Schema.v (0 disagreements in the sampled correspondence), isinstance over {int,float,str,bool} and pandas iteration/isnull semantics in the harness.",
+         "DESIGN.md section 5 C22"),
 }
 NOT_YET = "check not built yet (work in progress; see DESIGN.md section 8 build order)"
 
